@@ -102,7 +102,11 @@ func Placeholder(h *absint.Hole) string {
 }
 
 // Render turns an abstract string into text and records where each hole went.
-func Render(s absint.Str) *Rendered {
+func Render(s absint.Str) *Rendered { return RenderAlias(s, nil) }
+
+// RenderAlias renders with atoms that a world decided to be equal strings
+// sharing one placeholder (alias: atom id -> representative atom id).
+func RenderAlias(s absint.Str, alias map[int]int) *Rendered {
 	var sb strings.Builder
 	r := &Rendered{}
 	for _, p := range s.P {
@@ -110,7 +114,15 @@ func Render(s absint.Str) *Rendered {
 			sb.WriteString(p.Lit)
 			continue
 		}
-		t := Placeholder(p.Hole)
+		h := p.Hole
+		if rep, ok := alias[h.A.ID]; ok && rep != h.A.ID {
+			a2 := *h.A
+			a2.ID = rep
+			h2 := *h
+			h2.A = &a2
+			h = &h2
+		}
+		t := Placeholder(h)
 		r.Spans = append(r.Spans, Span{Start: sb.Len(), End: sb.Len() + len(t), Hole: p.Hole, Text: t})
 		sb.WriteString(t)
 	}
